@@ -48,6 +48,7 @@ class C16Spec(seqx.Spec):
             out.append({"t": "D", "val": "B-" + a})
             for side in ("s", "a"):
                 out.append({"t": "OVF", "val": "B-" + a, "side": side})
+                out.append({"t": "WHDEC", "val": "B-" + a, "side": side})
         return out
 
     def apply(self, ctx, res, srv, cache, action, model, replay):
@@ -66,6 +67,23 @@ class C16Spec(seqx.Spec):
                 if "ok" not in rep:
                     return rep
             model.write(None, want, data, size=v["n"], time=0)
+            return rep
+        if t == "WHDEC":
+            # by-address writer with a correctly declared size (memory-mapped path), fed a chunk that is shorter than
+            # an earlier one, then the rest
+            v = self.values[action["val"]]
+            n, tag = v["n"], v["tag"]
+            data = ref.gen(n, tag)
+            want = ctx.sri(v["algo"], data)
+            rep, trace = wr.do_write(srv, cache, side=action["side"], entry="open_hash", algo=v["algo"], n=n, tag=tag, chunks=[12, 5, n - 17], opts={"size": n})
+            res["transitions"] += len(trace)
+            if rep.get("ok") != want:
+                r = dict(replay)
+                r["reply"] = rep
+                V.violation(res, "dedup:write_hash-decreasing-chunks/%s:%s" % (action["side"], classify(rep) if "ok" not in rep else "wrong-digest"), "by-address write in chunks [12,5,%d]: %r" % (n - 17, rep), r)
+                if "ok" not in rep:
+                    return rep
+            model.write(None, want, data, size=n, time=0)
             return rep
         if t == "OVF":
             # the stored bytes are sent again through a writer whose declared size is exactly filled by the first
@@ -135,6 +153,8 @@ def label_patch():
             return "WH(%s,%s)" % (action["val"], action["side"])
         if action["t"] == "D":
             return "DAMAGE(%s)" % action["val"]
+        if action["t"] == "WHDEC":
+            return "WRITE_HASH-DECREASING-CHUNKS(%s,%s)" % (action["val"], action["side"])
         if action["t"] == "OVF":
             return "OVERFLOWING-WRITER(%s,%s)" % (action["val"], action["side"])
         return old(action)
